@@ -486,7 +486,7 @@ func c06PropertyNames(c *Ctx) {
 			r.Unres("R06d", "go-http *"+suffix, "", "unit root not found")
 			continue
 		}
-		ex := c.Explore(ri.Fn, 1, 6000)
+		ex := c.ExploreT(ri.Fn, 6000)
 		enc := map[string]bool{}
 		for _, v := range ex.Variants {
 			for _, u := range v.Units {
@@ -858,7 +858,7 @@ func c06NilSliceEncoded(c *Ctx) {
 	bad := map[string]string{}
 	nEnc, nMake := 0, 0
 	for _, ri := range c.goUnitRoots() {
-		ex := c.Explore(ri.Fn, 1, 6000)
+		ex := c.ExploreT(ri.Fn, 6000)
 		if !unitDeclaresCodec(ex) {
 			continue
 		}
